@@ -11,7 +11,7 @@ from typing_extensions import Type
 
 import yaml
 
-from yatiml.exceptions import RecognitionError
+from yatiml.exceptions import RecognitionError, SeasoningError
 from yatiml.helpers import Node, UnknownNode
 from yatiml.introspection import class_subobjects
 from yatiml.irecognizer import IRecognizer, RecError, RecResult, REC_OK
@@ -277,7 +277,12 @@ class Recognizer(IRecognizer):
                     # try exact match first, dashes if that doesn't match
                     for name in [attr_name, attr_name.replace('_', '-')]:
                         if cnode.has_attribute(name):
-                            subnode = cnode.get_attribute(name)
+                            try:
+                                subnode = cnode.get_attribute(name)
+                            except SeasoningError as e:
+                                # e.g. a key that is there twice
+                                message = '{}{}'.format(loc_str, e)
+                                return set(), (message, [])
                             recognized_types, result = self.recognize(
                                 subnode.yaml_node, type_)
                             if len(recognized_types) == 0:
